@@ -63,7 +63,9 @@ Record tres := mkT {
   t_r : resid;
   t_kind : kind;          (* class of the residue object *)
   t_cterm : bool;         (* is_c_term *)
-  t_3term : bool          (* is3term *)
+  t_3term : bool;         (* is3term *)
+  t_nterm : bool;         (* is_n_term *)
+  t_5term : bool          (* is5term *)
 }.
 
 Definition kind_of (tab : deftab) (r : resid) : kind :=
@@ -88,7 +90,7 @@ Definition apply_patch (p : patch) (r : resid) : resid :=
   with_atoms r (map (fun a => set_name a (alt_name (snd p) (a_name a))) removed).
 
 Definition patch_t (p : patch) (t : tres) : tres :=
-  mkT (apply_patch p (t_r t)) (t_kind t) (t_cterm t) (t_3term t).
+  mkT (apply_patch p (t_r t)) (t_kind t) (t_cterm t) (t_3term t) (t_nterm t) (t_5term t).
 
 Definition get_atom (n : string) (r : resid) : option atomrec :=
   find (fun a => a_name a =? n) (r_atoms r).
@@ -98,9 +100,9 @@ Section Termini.
   Variable near : atomrec -> atomrec -> bool.
 
   Definition mark_c (t : tres) : tres :=
-    let t' := patch_t (pt_cterm pt) t in mkT (t_r t') (t_kind t') true (t_3term t').
+    let t' := patch_t (pt_cterm pt) t in mkT (t_r t') (t_kind t') true (t_3term t') (t_nterm t') (t_5term t').
   Definition mark_3 (t : tres) : tres :=
-    let t' := patch_t (pt_3term pt) t in mkT (t_r t') (t_kind t') (t_cterm t') true.
+    let t' := patch_t (pt_3term pt) t in mkT (t_r t') (t_kind t') (t_cterm t') true (t_nterm t') (t_5term t').
 
   (* the C-terminus side, on the reversed residue list: the last residue, or -
      when it is neither amino nor nucleic - the nearest one before it, stopping
@@ -116,13 +118,16 @@ Section Termini.
         end
     end.
 
+  Definition mark_n (t : tres) : tres := mkT (t_r t) (t_kind t) (t_cterm t) (t_3term t) true (t_5term t).
+  Definition mark_5 (t : tres) : tres := mkT (t_r t) (t_kind t) (t_cterm t) (t_3term t) (t_nterm t) true.
+
   Definition mark_first (l : list tres) : list tres :=
     match l with
     | [] => []
     | t :: r =>
         match t_kind t with
-        | KAmino => patch_t (pt_nterm pt) t :: r
-        | KNucleic => patch_t (pt_5term pt) t :: r
+        | KAmino => mark_n (patch_t (pt_nterm pt) t) :: r
+        | KNucleic => mark_5 (patch_t (pt_5term pt) t) :: r
         | _ => l
         end
     end.
@@ -174,7 +179,7 @@ Section Termini.
   Definition set_res_chain (c : string) (t : tres) : tres :=
     let r := t_r t in
     mkT (mkR (r_name r) c (r_resseq r) (r_icode r) (map (fun a => set_chain a c) (r_atoms r)))
-        (t_kind t) (t_cterm t) (t_3term t).
+        (t_kind t) (t_cterm t) (t_3term t) (t_nterm t) (t_5term t).
 
   (* one chain of the while loop: [pre] = reslist, [todo] = the residues of the
      chain not yet looked at, [done] = the chains split off so far (in order).
@@ -260,10 +265,16 @@ Fixpoint chains_of (l : list tres) : list (string * list tres) :=
       end
   end.
 
+(* the residue objects after set_termini, in the order of Biomolecule.residues
+   (= the order of Biomolecule.atoms: splitting keeps the order), with their flags *)
+Definition set_termini_res (tab : deftab) (pt : ptab) (near : atomrec -> atomrec -> bool)
+  (rs : list resid) : option (list tres) :=
+  set_termini_chains pt near
+    (chains_of (map (fun r => mkT r (kind_of tab r) false false false false) rs)).
+
 Definition set_termini (tab : deftab) (pt : ptab) (near : atomrec -> atomrec -> bool)
   (rs : list resid) : option (list atomrec) :=
-  option_map (fun l => all_atoms (map t_r l))
-    (set_termini_chains pt near (chains_of (map (fun r => mkT r (kind_of tab r) false false) rs))).
+  option_map (fun l => all_atoms (map t_r l)) (set_termini_res tab pt near rs).
 
 (* ---- C07 atom -> C08 atom ------------------------------------------------------ *)
 
